@@ -216,7 +216,32 @@ def run(ctx):
             walk(sh)
             if not decls:
                 continue
-            if rng.random() < 0.5:
+            kind = rng.random()
+            if kind < 0.2:
+                # an undefined variable interpolated in the selector of an ordinary rule
+                rules = []
+
+                def walk3(stmts):
+                    for s in stmts:
+                        if s[0] == 'rule':
+                            rules.append(s)
+                            walk3(s[2])
+                        elif s[0] == 'media':
+                            walk3(s[2])
+                walk3(sh)
+                if not rules:
+                    continue
+                r = rng.choice(rules)
+                sel = rng.choice(r[1])
+                parts = [('t', '.' + rng.choice(['col-', 'a', 'x_'])), ('v', '@undefined-%d' % rng.randint(0, 9))] + ([('t', '-z')] if rng.random() < 0.5 else [])
+                pos = rng.randint(0, len(sel))
+                ins = [('iclass', parts)]
+                if pos > 0 and sel[pos - 1][0] not in ('desc', 'comb'):
+                    ins = [('desc',)] + ins
+                if pos < len(sel) and sel[pos][0] not in ('desc', 'comb'):
+                    ins = ins + [('desc',)]
+                sel[pos:pos] = ins
+            elif kind < 0.6:
                 d = rng.choice(decls)
                 k = rng.randrange(len(d[2]) + 1)
                 d[2][k:k] = ([('sp',)] if k and d[2][k - 1][0] != 'sp' else []) + [('var', '@undefined-%d' % rng.randint(0, 9))] + ([('sp',)] if k < len(d[2]) and d[2][k][0] != 'sp' else [])
@@ -251,6 +276,31 @@ def run(ctx):
             if a.get('r') != 'error':
                 out['spec_mismatch'].append({'input': {'text': c['text'], 'class': 'undefined-variable', 'opts': c['opts']}, 'impl': a, 'spec': 'must raise CompilationError: unknown variable', 'classes': []})
         dist['undefined_variable_programs'] = len(uv)
+        # ---- the corruption sits in a file reached through @import (also through a second level): the importing compilation must fail
+        itmp = tempfile.mkdtemp(prefix='lessverif-c15i-')
+        try:
+            icases = []
+            pick = list(range(len(cases)))
+            rng.shuffle(pick)
+            for k, ci in enumerate(pick[: (40 if quick else 600) * mult]):
+                c = cases[ci]
+                d = os.path.join(itmp, 'i%d' % k)
+                os.makedirs(os.path.join(d, 'sub'))
+                two = rng.random() < 0.4
+                open(os.path.join(d, 'sub' if two else '', 'part.less'), 'w', newline='').write(c['text'])
+                if two:
+                    open(os.path.join(d, 'mid.less'), 'w').write('.mid{top:0}\n@import "sub/part";\n')
+                open(os.path.join(d, 'main.less'), 'w').write('.main{color:red}\n@import "%s";\n.after{left:0}\n' % ('mid' if two else rng.choice(['part', 'part.less', './part'])))
+                icases.append((c, os.path.join(d, 'main.less')))
+            ians = pool.run([{'kind': 'compile_file', 'path': p, 'opts': {}} for _, p in icases], timeout=30)
+            for (c, p), a in zip(icases, ians):
+                out['evaluations'] += 1
+                if a.get('r') != 'error':
+                    out['spec_mismatch'].append({'input': {'text': c['text'], 'class': c['class'] + ' (in an imported file)', 'main': open(p).read()}, 'impl': a,
+                                                 'spec': 'a corruption in an imported .less file must make the importing compilation fail', 'classes': ['c15-import:' + c['class']]})
+            dist['imported_corruptions'] = len(icases)
+        finally:
+            shutil.rmtree(itmp, ignore_errors=True)
         # ---- token correspondence with LINES (multi-line strings, interpolated chunks, comments, CRLF)
         if ctx.get('model_usable', True):
             texts = [t for t, _ in progs][: (60 if quick else 600) * mult]
